@@ -83,6 +83,8 @@ var alphabet = []member{
 	mu("unit", "1", vGoodNum, ""), mu("unit", "null", vOther, ""), mu("unit", `{"unit":"B"}`, vOther, ""), mu("unit", `["B"]`, vOther, ""),
 	mx("x", `"s"`), mx("x", "null"), mx("x", "true"), mx("x", "[]"), mx("x", "{}"), mx("x", "[1,[2,[3,[4]]]]"), mx("x", `{"value":5,"unit":"MB"}`), mx("x", `{"a":{"b":{"c":{"unit":"B","value":9}}}}`),
 	mx("x", `[{"value":1},{"unit":"B"}]`), mx("values", "1"), mx("unit ", `"B"`), mx("", "0"), mx("valu", "1"), mx("x", `"}"`), mx("y", `"]{"`), mx("x", "-1.5e-3"),
+	// (appended: the indices above are referred to by `reduced`) unit texts with white space: the value-unit pair is what size.New gets
+	mu("unit", `" KiB"`, vString, " KiB"), mu("unit", `"MB\t"`, vString, "MB\t"), mu("unit", `" "`, vString, " "),
 }
 
 // reduced alphabet (indices into alphabet) for the deepest sequences
@@ -725,6 +727,7 @@ func main() {
 				}
 			}
 			mc.Mutations1([]byte(d), mc.AllBytes, func(m []byte) { add(string(m)) })
+			mc.MutationsTok([]byte(d), []string{"\ufeff", "\u00a0", "\u2028", "\u0085", "\uff11", "\u212a"}, func(m []byte) { add(string(m)) })
 			for _, sp := range []string{"\u00a0", "\u0085", "\u2028", "\u2003", "\ufeff", "\u3000", "\v", "\f", "\x1c", "\x00", "\r\n", "\t\t"} {
 				add(sp + d)
 				add(d + sp)
